@@ -117,6 +117,10 @@ class Ev:
 
     # ---- edge evaluation -------------------------------------------------
     def builtin(self, e, key):
+        if getattr(self, 'in_pool_lookup', False):
+            # the manual does not say when the pool of a build statement is looked up; ninja does it before the statement's
+            # paths exist, so a pool name spelled with $in/$out is not what it seems
+            raise Unsure('pool name depends on $in/$out')
         paths, raws = (e.outs, e.raw_outs) if key == 'out' else (e.ins, e.raw_ins)
         for p in raws:
             if any(ch not in SAFE_PATH_CH for ch in p):
@@ -168,7 +172,11 @@ class Ev:
             if 'dyndep' in e.rule.bindings or e.scope.lookup_var('dyndep') is not None:
                 raise Unsure('dyndep defined outside a build statement')
             r['dyndep'] = ''
-        pool = self.lookup(e, 'pool', [])
+        self.in_pool_lookup = True
+        try:
+            pool = self.lookup(e, 'pool', [])
+        finally:
+            self.in_pool_lookup = False
         r['pool'] = pool or ''
         if r['pool'] not in ('', 'console') and r['pool'] not in self.pools:
             raise NinjaError('unknown_pool', e.file, e.line, 'unknown pool %r' % r['pool'])
@@ -591,7 +599,11 @@ class Parser:
         except NinjaError as x:
             if x.kind != 'unknown_pool':
                 raise
-            pname = ev.lookup(e, 'pool', [])
+            ev.in_pool_lookup = True
+            try:
+                pname = ev.lookup(e, 'pool', [])
+            finally:
+                ev.in_pool_lookup = False
             ev.add_pending(x, lambda: pname in ev.pools)
             return
         ev.edges.append(e)
